@@ -1272,3 +1272,6 @@ t('twin-leafbook-order', ['C02'],
    """        self.leaf_elements.setdefault(child1)
         self.leaf_elements.setdefault(child2)
         self.leaf_elements.pop(elem)"""))
+m('c01-assert-contained', ['C01', 'C11'],
+  (SL, "        if a == c:\n            assert b < d", "        if a == c:\n            assert b > d"),
+  rule='R-assert')
